@@ -25,6 +25,7 @@ func init() {
 			{ID: "C12.4", Desc: "delta-seconds saturation", Run: func(c *Ctx) { ruleSaturation(c, "C12.4") }, MinSites: 2},
 			{ID: "C12.5", Desc: "empty elements skipped, optional whitespace trimmed", Run: ruleC12_5, MinSites: 2},
 			{ID: "C12.6", Desc: "one tokenizer for request and response directives", Run: ruleC12_6, MinSites: 1},
+			{ID: "C12.7", Desc: "in the list splitter an escaped character is consumed before quotes and commas are interpreted", Run: ruleC12_7, MinSites: 1},
 		},
 	})
 }
@@ -179,13 +180,16 @@ func (c *Ctx) unquoteFns() map[*ssa.Function]bool {
 		if len(ps) != 1 || !isBasicKind(ps[0], types.String) || len(rs) < 1 || !isBasicKind(rs[0], types.String) {
 			continue
 		}
-		hasQuote := false
+		hasQuote, hasBackslash := false, false
 		for _, g := range c.reachableFrom(fn) {
 			if intConstsIn(g)['"'] {
 				hasQuote = true
 			}
+			if intConstsIn(g)['\\'] {
+				hasBackslash = true
+			}
 		}
-		if hasQuote && strings.Contains(strings.ToLower(fn.Name()), "quot") {
+		if hasQuote && hasBackslash {
 			out[fn] = true
 		}
 	}
@@ -410,4 +414,105 @@ func lexicallyInside(g, f *ssa.Function) bool {
 		}
 	}
 	return false
+}
+
+// ruleC12_7: inside a quoted-string a backslash escapes the next byte: the splitter must look at its escape state before
+// it interprets a DQUOTE (toggle) or a comma (split).
+func ruleC12_7(c *Ctx) {
+	var split *ssa.Function
+	for _, f := range c.tokenizerTree() {
+		if len(f.Params) == 1 && intConstsIn(f)[','] && intConstsIn(f)['"'] {
+			if sig, ok := f.Params[0].Type().Underlying().(*types.Signature); ok && sig.Params().Len() == 1 && isStringType(sig.Params().At(0).Type()) {
+				split = f
+			}
+		}
+	}
+	desc := "the list splitter consumes an escaped byte before it interprets quotes and commas"
+	if split == nil {
+		c.Undecided("C12.7", "splitter-escape", desc, "no quote-aware list splitter found in the shared tokenizer")
+		return
+	}
+	// the escape flag: a bool phi that becomes true in a block dominated by the true edge of a comparison with a backslash
+	var escPhis []*ssa.Phi
+	instrsOf(split, func(in ssa.Instruction) {
+		phi, ok := in.(*ssa.Phi)
+		if !ok || !isBoolType(phi.Type()) {
+			return
+		}
+		for i, e := range phi.Edges {
+			if b, isC := constBool(e); isC && b {
+				pred := phi.Block().Preds[i]
+				for _, dc := range append(dominatingConds(pred), domCond{}) {
+					if dc.cond == nil {
+						continue
+					}
+					if bo, ok := dc.cond.(*ssa.BinOp); ok && dc.onTrue && bo.Op == token.EQL {
+						if k, ok := constInt(bo.Y); ok && k == '\\' {
+							escPhis = append(escPhis, phi)
+						}
+					}
+				}
+			}
+		}
+	})
+	if len(escPhis) == 0 {
+		c.Fail("C12.7", "splitter-escape", desc, c.P.ShortName(split)+": no escape state: a backslash inside a quoted-string is not treated as an escape")
+		return
+	}
+	// loop-carried: the header phi fed by the escape phi
+	isEsc := func(v ssa.Value) bool {
+		seen := map[ssa.Value]bool{}
+		var rec func(v ssa.Value) bool
+		rec = func(v ssa.Value) bool {
+			if seen[v] {
+				return false
+			}
+			seen[v] = true
+			phi, ok := v.(*ssa.Phi)
+			if !ok {
+				return false
+			}
+			for _, ep := range escPhis {
+				if phi == ep {
+					return true
+				}
+			}
+			for _, e := range phi.Edges {
+				if rec(e) {
+					return true
+				}
+			}
+			return false
+		}
+		return rec(v)
+	}
+	n := 0
+	bad := ""
+	instrsOf(split, func(in ssa.Instruction) {
+		bo, ok := in.(*ssa.BinOp)
+		if !ok || bo.Op != token.EQL {
+			return
+		}
+		k, ok := constInt(bo.Y)
+		if !ok || (k != '"' && k != ',') {
+			return
+		}
+		n++
+		guarded := false
+		for _, dc := range dominatingConds(bo.Block()) {
+			if !dc.onTrue && isEsc(dc.cond) {
+				guarded = true
+			}
+		}
+		if !guarded {
+			bad = fmt.Sprintf("%s: the comparison with %q is evaluated without first testing the escape state", c.P.InstrPos(bo), rune(k))
+		}
+	})
+	if n == 0 {
+		c.Undecided("C12.7", "splitter-escape", desc, "no quote/comma comparison in "+c.P.ShortName(split))
+	} else if bad != "" {
+		c.Fail("C12.7", "splitter-escape", desc, bad+"; an escaped quote such as ext=\"a\\\"\" ends the quoted-string early and the directives after it are lost or merged")
+	} else {
+		c.Pass("C12.7", "splitter-escape", desc, fmt.Sprintf("%s: %d comparisons guarded by the escape state", c.P.ShortName(split), n))
+	}
 }
